@@ -130,7 +130,9 @@ class Walker:
             if not self.profile["utility"]:
                 continue
             rank[s] = rnd.choice([0, 0, 0, 1, 2]) if st["headed"] else 0
-            util[s] = rnd.choice([Fraction(1, 2), Fraction(1), Fraction(2), Fraction(3), Fraction(1, 3)]) if st["headed"] else Fraction(1)
+            uvals = ([Fraction(1, 10), Fraction(2, 10), Fraction(3, 10), Fraction(7, 10), Fraction(1, 3), Fraction(1, 7), Fraction(11, 10)]
+                     if self.profile.get("floaty") else [Fraction(1, 2), Fraction(1), Fraction(2), Fraction(3), Fraction(1, 3)])
+            util[s] = rnd.choice(uvals) if st["headed"] else Fraction(1)
             par = fl.st(st["parent"]) if st["parent"] else None
             if st["headed"] and st["kind"] == "S" and par and par["strat"] in ("Utilitarian", "Random") and rnd.random() < 0.2:
                 util[s] = Fraction(0)
@@ -155,8 +157,12 @@ class Walker:
                         out.append("util %d %d %d" % (s, util[s].numerator, util[s].denominator))
             n = rnd.randint(0, 4)
             if n:
-                vals = [rnd.choice([Fraction(0), Fraction(1, 4), Fraction(1, 2), Fraction(3, 4), Fraction(99, 100),
-                                    Fraction(1, 3), Fraction(2, 3), Fraction(1, 7)]) for _ in range(n)]
+                rvals = [Fraction(0), Fraction(1, 4), Fraction(1, 2), Fraction(3, 4), Fraction(99, 100), Fraction(1, 3), Fraction(2, 3), Fraction(1, 7)]
+                if self.profile.get("floaty"):
+                    # generator outputs adjacent to 1 and to interval boundaries (floats: 24-bit mantissa)
+                    rvals = [Fraction(16777215, 16777216), Fraction(16777214, 16777216), Fraction(16777215, 16777216), Fraction(1, 16777216),
+                             Fraction(0), Fraction(1, 3), Fraction(1, 2), Fraction(8388609, 16777216), Fraction(5592405, 16777216)]
+                vals = [rnd.choice(rvals) for _ in range(n)]
                 out.append("rng " + " ".join("%d %d" % (v.numerator, v.denominator) for v in vals))
         return out
 
@@ -249,7 +255,7 @@ class Walker:
         pre = [] if manual else self.rets() + self.hooks("enter", [], 0, first_activation=True)
         if self.profile["fills"]:
             pre = ["fill %d" % rnd.choice([0, 255, 165, 1])] + pre
-        rec = call(pre, "new 1" if self.profile["logger"] and rnd.random() < 0.6 else "new")
+        rec = call(pre, "new 1" if self.profile["logger"] and (self.profile["logger"] == "always" or rnd.random() < 0.6) else "new")
         if rec is None:
             return None
         while n < steps:
@@ -269,7 +275,7 @@ class Walker:
                 room = qlen < fl.cc or self.profile["overflow"]
                 if self.profile["plans"] and rnd.random() < self.profile.get("planheavy", 0.0):
                     c = 0.90        # a plan edit from outside
-                if self.profile["logger"] and rnd.random() < 0.04:
+                if self.profile["logger"] and self.profile["logger"] != "always" and rnd.random() < 0.04:
                     rec = call([], "logger %d" % (0 if post.get("lg") else 1))
                     if rec is None:
                         return None
